@@ -136,6 +136,31 @@ FAILING = ['xx = 1 + \\', 'aa = fn(1, \\\n  2, \\', 'function ff():\n    aa = 1'
            'for xx in yy:\n    continue \\', 'function ff(aa, aa):\n    return aa +\nendfunction', "include 'abc\nyy = 2"]
 
 
+def scramble(node):
+    """Edit a model in place: every number, string, name and list that the parser handed out is changed."""
+    if isinstance(node, dict):
+        for k in list(node):
+            v = node[k]
+            if isinstance(v, bool):
+                node[k] = not v
+            elif isinstance(v, (int, float)):
+                node[k] = v + 41
+            elif isinstance(v, str):
+                node[k] = v + '_edited'
+            else:
+                scramble(v)
+        node['$edited'] = True
+    elif isinstance(node, list):
+        for i, v in enumerate(node):
+            if isinstance(v, str):
+                node[i] = v + '_edited'
+            elif isinstance(v, (int, float)) and not isinstance(v, bool):
+                node[i] = v + 41
+            else:
+                scramble(v)
+        node.append({'$edited': True})
+
+
 def all_chunkings(lines, maxcuts=6):
     n = len(lines)
     for k in range(0, min(maxcuts, n - 1) + 1):
@@ -187,6 +212,13 @@ def check_rewrites(name, text, nrew, rnd, acc, api, exhaustive_chunks=False):
             acc.count('determinism_checks')
             if json.dumps(again, sort_keys=True) != cj:
                 acc.violation('parser-keeps-state', f'{name}: parsing the canonical text again after a rewrite gives another model', case)
+            # ... and after the caller EDITED a model it got back (every node changed in place): later parses hand out fresh nodes
+            scramble(again)
+            scramble(got)
+            again = parse_script(text)
+            acc.count('determinism_checks')
+            if json.dumps(again, sort_keys=True) != cj:
+                acc.violation('parser-shares-nodes-between-calls', f'{name}: after editing an earlier result in place the canonical text gives another model; first difference: {first_diff(canon, again)}', dict(case, scrambled=True))
             # ... and after a parse that FAILED (every error exit of the parser), in any input form
             bad = rnd.choice(FAILING)
             try:
@@ -303,6 +335,12 @@ def replay(spec, acc):
         return
     canon = parse_script(case['text'])
     acc.case(json.dumps(case['rewrite']), True)
+    if case.get('scrambled'):
+        scramble(parse_script(case['text']))
+        again = parse_script(case['text'])
+        if again != canon:
+            acc.violation('parser-shares-nodes-between-calls', first_diff(canon, again), case)
+            return
     if case.get('failed_first'):
         try:
             parse_script(case['failed_first'])
